@@ -476,3 +476,467 @@ Proof.
     + cbn. destruct (memb y (gsigs s m)) eqn:E; [split; discriminate|]. split; [discriminate|]. intros C. apply Hreg in C. congruence.
     + rewrite (r_reg s R y m'). destruct (memb y (gsigs s m)) eqn:E; [|tauto]. apply Hreg in E. split; [congruence|discriminate].
 Qed.
+
+(* ---------------------------------------------------------------------------------------- *)
+(* the tree under link / unlink                                                              *)
+(* ---------------------------------------------------------------------------------------- *)
+
+Lemma belowN_smaller : forall n s x z, Tree s -> belowN n s x z -> sz s z < sz s x.
+Proof.
+  induction n as [|[|n] IH]; intros s x z T B; [destruct B| |].
+  - apply (t_wf s T z x B).
+  - rewrite belowN_S in B. destruct B as [u [E Hu]]. pose proof (IH s x u T Hu). destruct (t_wf s T z u E). lia.
+Qed.
+
+Lemma below_irrefl : forall s x n, Tree s -> ~ belowN n s x x.
+Proof. intros s x n T B. pose proof (belowN_smaller n s x x T B). lia. Qed.
+
+(* changing the parent pointer of x alone does not change what is below x *)
+Lemma belowN_upd : forall s s' x, Tree s -> Tree s' -> (forall y, y <> x -> pmux s' y = pmux s y) ->
+  forall n z, belowN n s' x z <-> belowN n s x z.
+Proof.
+  intros s s' x T T' Hp. induction n as [|[|n] IH]; intros z; [cbn; tauto| |].
+  - cbn [belowN]. destruct (Nat.eq_dec z x) as [->|NE].
+    + split; intros C; exfalso; [apply (below_irrefl s' x 1 T'); exact C|apply (below_irrefl s x 1 T); exact C].
+    + rewrite (Hp z NE). tauto.
+  - rewrite !belowN_S. destruct (Nat.eq_dec z x) as [->|NE].
+    + split; intros C; exfalso; [apply (below_irrefl s' x (S (S n)) T'); rewrite belowN_S; exact C|apply (below_irrefl s x (S (S n)) T); rewrite belowN_S; exact C].
+    + rewrite (Hp z NE). split; intros [u [E Hu]]; exists u; (split; [exact E|apply IH; exact Hu]).
+Qed.
+
+Lemma subtree_upd : forall s s' x y, Tree s -> Tree s' -> (forall z, z <> x -> pmux s' z = pmux s z) ->
+  (subtree s' x y <-> subtree s x y).
+Proof.
+  intros s s' x y T T' Hp. unfold subtree, Below. split; intros [E|[n B]]; auto; right; exists n; apply (belowN_upd s s' x T T' Hp); exact B.
+Qed.
+
+Lemma memb_ladd : forall x l y, memb y (ladd x l) = true <-> y = x \/ memb y l = true.
+Proof. intros. rewrite !memb_In. apply ladd_In. Qed.
+Lemma memb_lrem : forall x l y, memb y (lrem x l) = true <-> memb y l = true /\ y <> x.
+Proof. intros. rewrite !memb_In. apply lrem_In. Qed.
+
+(* x stops being a child of u *)
+Lemma Tree_unlink : forall s s' u x, Tree s -> pmux s x = Some u ->
+  (forall y, pmux s' y = upd (pmux s) x None y) ->
+  (forall u', usigs s' u' = if Nat.eqb u' u then lrem x (usigs s u) else usigs s u') ->
+  kind s' = kind s -> nsig s' = nsig s -> (forall y, sz s' y = sz s y) -> Tree s'.
+Proof.
+  intros s s' u x T Ex Ep Eu Ek En Esz. constructor.
+  - intros u' y. rewrite Eu, Ep. unfold upd. destruct (Nat.eqb_spec u' u) as [->|NE].
+    + rewrite memb_lrem, (t_in s T u y). destruct (Nat.eqb_spec y x) as [->|NEy]; [split; [tauto|discriminate]|tauto].
+    + rewrite (t_in s T u' y). destruct (Nat.eqb_spec y x) as [->|NEy]; [split; [congruence|discriminate]|tauto].
+  - intros u' y. rewrite Eu. unfold is_mux. rewrite Ek. destruct (Nat.eqb_spec u' u) as [->|NE].
+    + rewrite memb_lrem. intros [A _]. apply (t_mux s T u y A).
+    + apply (t_mux s T u' y).
+  - intros y w. rewrite Ep, !Esz, En. unfold upd. destruct (Nat.eqb y x); [discriminate|apply (t_wf s T)].
+Qed.
+
+(* x becomes a child of u *)
+Lemma Tree_link : forall s s' u x, Tree s -> (pmux s x = None \/ pmux s x = Some u) ->
+  is_mux s u = true -> sz s x < sz s u -> (u < nsig s)%nat -> (x < nsig s)%nat ->
+  (forall y, pmux s' y = upd (pmux s) x (Some u) y) ->
+  (forall u', usigs s' u' = if Nat.eqb u' u then ladd x (usigs s u) else usigs s u') ->
+  kind s' = kind s -> nsig s' = nsig s -> (forall y, sz s' y = sz s y) -> Tree s'.
+Proof.
+  intros s s' u x T Ex Hmx Hsz Hu Hx Ep Eu Ek En Esz. constructor.
+  - intros u' y. rewrite Eu, Ep. unfold upd. destruct (Nat.eqb_spec u' u) as [->|NE].
+    + rewrite memb_ladd, (t_in s T u y). destruct (Nat.eqb_spec y x) as [->|NEy]; [split; auto|]. split; [intros [C|C]; [contradiction|exact C]|auto].
+    + rewrite (t_in s T u' y). destruct (Nat.eqb_spec y x) as [->|NEy]; [|tauto].
+      split; [intros C; destruct Ex as [E|E]; congruence|intros C; inversion C; congruence].
+  - intros u' y. rewrite Eu. unfold is_mux. rewrite Ek. destruct (Nat.eqb_spec u' u) as [->|NE].
+    + intros _. exact Hmx.
+    + apply (t_mux s T u' y).
+  - intros y w. rewrite Ep, !Esz, En. unfold upd. destruct (Nat.eqb_spec y x) as [->|NE]; [|apply (t_wf s T)].
+    intros C. inversion C; subst w. repeat split; assumption.
+Qed.
+
+(* ---------------------------------------------------------------------------------------- *)
+(* MultiplexerSignal.removeSignal / addSignal                                                *)
+(* ---------------------------------------------------------------------------------------- *)
+
+Lemma sz_mux_remove : forall s u x y, sz (mux_remove_signal s u x) y = sz s y.
+Proof. intros. apply sz_reg; autorewrite with reg; reflexivity. Qed.
+Lemma sz_mux_add : forall s u x y, sz (mux_add_signal s u x) y = sz s y.
+Proof. intros. apply sz_reg; autorewrite with reg; reflexivity. Qed.
+
+Lemma glay_mux_remove' : forall s u x, glay (mux_remove_signal s u x) = glay s.
+Proof. intros. autorewrite with reg. reflexivity. Qed.
+
+Lemma pmsg_mux_remove_none : forall s u x, pmsg s u = None -> pmsg (mux_remove_signal s u x) = pmsg s /\ gsigs (mux_remove_signal s u x) = gsigs s.
+Proof. intros s u x E. unfold mux_remove_signal. cbn. rewrite E. split; reflexivity. Qed.
+Lemma pmsg_mux_add_none : forall s u x, pmsg s u = None -> pmsg (mux_add_signal s u x) = pmsg s /\ gsigs (mux_add_signal s u x) = gsigs s.
+Proof. intros s u x E. unfold mux_add_signal. cbn. rewrite E. split; reflexivity. Qed.
+
+Lemma prim_mux_remove : forall s u x, Tree s -> InvR s -> pmux s x = Some u ->
+  Tree (mux_remove_signal s u x) /\ InvR (mux_remove_signal s u x).
+Proof.
+  intros s u x T R Ex.
+  assert (Hnt : forall m, ~ In x (glay s m)) by (intros m Hin; destruct (r_top s R m x Hin); congruence).
+  assert (T' : Tree (mux_remove_signal s u x)).
+  { eapply (Tree_unlink s _ u x T Ex); try (autorewrite with reg; reflexivity).
+    - intros y. apply pmux_mux_remove.
+    - intros u'. apply usigs_mux_remove.
+    - intros y. apply sz_mux_remove. }
+  split; [exact T'|].
+  destruct (pmsg s u) as [m|] eqn:Emu.
+  - (* the multiplexer belongs to message m: the subtree of x is unregistered *)
+    set (s3 := set_pmux (set_unames (set_usigs s (upd (usigs s) u (lrem x (usigs s u)))) (upd (unames s) u (lrem x (unames s u)))) (upd (pmux s) x None)).
+    assert (Es : mux_remove_signal s u x = msg_remove_signal s3 m x) by (unfold mux_remove_signal; cbn; rewrite Emu; reflexivity).
+    assert (T3 : Tree s3).
+    { eapply (Tree_unlink s s3 u x T Ex); try reflexivity;
+        try (intros u'; cbn; unfold upd; destruct (Nat.eqb u' u); reflexivity). }
+    destruct (msg_remove_effect s3 m x T3) as (F1 & F2 & F3 & F4).
+    assert (Hsub : forall y, subtree s3 x y <-> subtree s x y).
+    { intros y. apply (subtree_upd s s3 x y T T3). intros z NE. cbn. apply upd_other. exact NE. }
+    rewrite Es. eapply (InvR_detach s _ m x T R).
+    + rewrite (r_child s R x u Ex). exact Emu.
+    + intros y. reflexivity.
+    + intros m' y. cbn. split; [intros Hin; split; [exact Hin|intros ->; exact (Hnt m' Hin)]|tauto].
+    + intros y Hy. apply F1. apply Hsub. exact Hy.
+    + intros y Hy. rewrite F2; [reflexivity|]. intros C. apply Hy. apply Hsub. exact C.
+    + intros y. rewrite F3. rewrite Hsub. reflexivity.
+    + intros m' NE. rewrite F4 by exact NE. reflexivity.
+  - destruct (pmsg_mux_remove_none s u x Emu) as [Em Eg].
+    eapply (InvR_unlink s _ x R); try assumption.
+    + rewrite (r_child s R x u Ex). exact Emu.
+    + intros y. apply pmux_mux_remove.
+    + autorewrite with reg. reflexivity.
+Qed.
+
+Lemma prim_mux_add : forall s u x, Tree s -> InvR s ->
+  ((pmux s x = None /\ pmsg s x = None) \/ pmux s x = Some u) ->
+  is_mux s u = true -> sz s x < sz s u -> (u < nsig s)%nat -> (x < nsig s)%nat ->
+  Tree (mux_add_signal s u x) /\ InvR (mux_add_signal s u x).
+Proof.
+  intros s u x T R Hx Hmx Hsz Hu Hxl.
+  assert (Hnt : forall m, ~ In x (glay s m)).
+  { intros m Hin. destruct (r_top s R m x Hin) as [P Q]. destruct Hx as [[_ E]|E]; congruence. }
+  assert (Hx' : pmux s x = None \/ pmux s x = Some u) by (destruct Hx as [[E _]|E]; auto).
+  assert (T' : Tree (mux_add_signal s u x)).
+  { eapply (Tree_link s _ u x T Hx' Hmx Hsz Hu Hxl); try (autorewrite with reg; reflexivity).
+    - intros y. apply pmux_mux_add.
+    - intros u'. apply usigs_mux_add.
+    - intros y. apply sz_mux_add. }
+  split; [exact T'|].
+  assert (Hnu : ~ subtree s x u).
+  { intros [E|[n B]]; [subst; lia|]. pose proof (belowN_smaller n s x u T B). lia. }
+  set (s3 := set_pmux (set_unames (set_usigs s (upd (usigs s) u (ladd x (usigs s u)))) (upd (unames s) u (ladd x (unames s u)))) (upd (pmux s) x (Some u))).
+  assert (T3 : Tree s3).
+  { eapply (Tree_link s s3 u x T Hx' Hmx Hsz Hu Hxl); try reflexivity;
+      try (intros u'; cbn; unfold upd; destruct (Nat.eqb u' u); reflexivity). }
+  assert (Hsub : forall y, subtree s3 x y <-> subtree s x y).
+  { intros y. apply (subtree_upd s s3 x y T T3). intros z NE. cbn. apply upd_other. exact NE. }
+  eapply (InvR_link s _ u x T R Hx Hnu).
+  - intros y. apply pmux_mux_add.
+  - autorewrite with reg. reflexivity.
+  - destruct (pmsg s u) as [m|] eqn:Emu.
+    + assert (Es : mux_add_signal s u x = msg_add_signal s3 m x) by (unfold mux_add_signal; cbn; rewrite Emu; reflexivity).
+      destruct (msg_add_effect s3 m x T3) as (F1 & F2 & F3 & F4). rewrite Es.
+      split; [intros y Hy; apply F1; apply Hsub; exact Hy|].
+      split; [intros y Hy; rewrite F2; [reflexivity|intros C; apply Hy; apply Hsub; exact C]|].
+      split; [intros y; rewrite F3, Hsub; reflexivity|intros m' NE; rewrite F4 by exact NE; reflexivity].
+    + apply (pmsg_mux_add_none s u x Emu).
+  - exact Hnt.
+Qed.
+
+(* ---------------------------------------------------------------------------------------- *)
+(* operations that do not touch the registry                                                 *)
+(* ---------------------------------------------------------------------------------------- *)
+
+Lemma rcore_msg_modify : forall s m x a, rcore (fst (msg_modify_size s m x a)) = rcore s.
+Proof.
+  intros. unfold msg_modify_size. destruct (a =? 0); [reflexivity|]. destruct (negb (memb x (gsigs s m))); [reflexivity|].
+  destruct (if 0 <? a then _ else _) as [e pos]. destruct e; reflexivity.
+Qed.
+Lemma rcore_mux_modify : forall s u x a, rcore (fst (mux_modify_size s u x a)) = rcore s.
+Proof.
+  intros. unfold mux_modify_size. destruct (a =? 0); [reflexivity|]. destruct (negb (memb x (usigs s u))); [reflexivity|].
+  destruct (mux_verify_size s u x a); try reflexivity. destruct (groups_of s u x) as [gs|]; [|reflexivity].
+  rewrite modify_groups_pos. reflexivity.
+Qed.
+Lemma rcore_sig_modify : forall s x a, rcore (fst (sig_modify_size s x a)) = rcore s.
+Proof. intros. unfold sig_modify_size. destruct (pmux s x); [apply rcore_mux_modify|]. destruct (pmsg s x); [apply rcore_msg_modify|reflexivity]. Qed.
+Lemma rcore_refs_modify : forall refs s a, rcore (fst (refs_modify s refs a)) = rcore s.
+Proof.
+  induction refs as [|r t IH]; intros s a; cbn [refs_modify]; [reflexivity|].
+  pose proof (rcore_sig_modify s r a) as P. destruct (sig_modify_size s r a) as [s' e]. cbn [fst] in *.
+  destruct e; try exact P. rewrite IH. exact P.
+Qed.
+Lemma rcore_enum_modify : forall s e a, rcore (fst (enum_modify_size s e a)) = rcore s.
+Proof. intros. unfold enum_modify_size. destruct (a =? 0); [reflexivity|apply rcore_refs_modify]. Qed.
+
+Ltac rsame s0 R := apply (InvR_core s0); [reflexivity|exact R].
+
+Lemma invr_set_type : forall s x n, InvR s -> InvR (fst (step_set_type s x n)).
+Proof.
+  intros s x n R. unfold step_set_type. destruct (kind s x) as [old| |]; try exact R. destruct (n <=? 0); [exact R|].
+  pose proof (rcore_sig_modify s x (n - old)) as P. destruct (sig_modify_size s x (n - old)) as [s1 r]. cbn [fst] in P.
+  destruct r; cbn [fst]; apply (InvR_core s); try exact R; exact P.
+Qed.
+Lemma invr_set_enum : forall s x e, InvR s -> InvR (fst (step_set_enum s x e)).
+Proof.
+  intros s x e R. unfold step_set_enum. destruct (kind s x) as [|old|]; try exact R.
+  pose proof (rcore_sig_modify s x (esize s e - sz s x)) as P. destruct (sig_modify_size s x (esize s e - sz s x)) as [s1 r]. cbn [fst] in P.
+  destruct r; cbn [fst]; apply (InvR_core s); try exact R; exact P.
+Qed.
+Lemma invr_add_value : forall s e idx, InvR s -> InvR (fst (step_add_value s e idx)).
+Proof.
+  intros s e idx R. unfold step_add_value. set (s0 := set_nval _ _).
+  assert (R0 : InvR s0) by (rsame s R).
+  destruct (verify_value_index s0 e idx); try exact R0.
+  destruct (emax s0 e <? idx) eqn:El.
+  - pose proof (rcore_enum_modify s0 e (esize_of (emin s0 e) idx - esize s0 e)) as P.
+    destruct (enum_modify_size s0 e (esize_of (emin s0 e) idx - esize s0 e)) as [s1 r]. cbn [fst] in P.
+    destruct r; cbn [fst]; try (apply (InvR_core s0); [exact P|exact R0]).
+    destruct (emax s1 e <? idx); apply (InvR_core s0); try exact R0; exact P.
+  - cbn [fst]. rewrite El. rsame s0 R0.
+Qed.
+Lemma invr_update_index : forall s v idx, InvR s -> InvR (fst (step_update_index s v idx)).
+Proof.
+  intros s v idx R. unfold step_update_index. destruct (vidx s v =? idx); [exact R|].
+  destruct (vpar s v) as [e|]; [|cbn [fst]; rsame s R]. destruct (verify_value_index s e idx); try exact R.
+  set (amt := esize_of (emin s e) _ - esize s e).
+  pose proof (rcore_enum_modify s e amt) as P. destruct (enum_modify_size s e amt) as [s1 r]. cbn [fst] in P.
+  destruct r; cbn [fst]; apply (InvR_core s); try exact R; exact P.
+Qed.
+
+(* ---------------------------------------------------------------------------------------- *)
+(* attach / detach at message level                                                          *)
+(* ---------------------------------------------------------------------------------------- *)
+
+Lemma Tree_set_lists : forall s s', pmux s' = pmux s -> usigs s' = usigs s -> kind s' = kind s -> nsig s' = nsig s ->
+  emax s' = emax s -> emin s' = emin s -> Tree s -> Tree s'.
+Proof. intros s s' A B C D E F T. apply (Tree_ext s s'); try assumption. intros x. apply sz_reg; assumption. Qed.
+
+Lemma invr_attach_msg : forall s m x pos l, InvA s -> InvM s -> InvR s -> ~ attached s x ->
+  (forall y, In y l <-> y = x \/ In y (glay s m)) ->
+  InvR (msg_add_signal (set_glay (set_rel s pos) (upd (glay s) m l)) m x).
+Proof.
+  intros s m x pos l HA H R Hfree Hl.
+  pose proof (tree_of_inv s HA H) as T.
+  destruct (link_top_of_inv s x HA H R) as [_ Lf]. destruct (Lf Hfree) as [Epx Emx].
+  set (s1 := set_glay (set_rel s pos) (upd (glay s) m l)).
+  assert (T1 : Tree s1) by (apply (Tree_set_lists s s1); try reflexivity; exact T).
+  destruct (msg_add_effect s1 m x T1) as (F1 & F2 & F3 & F4).
+  assert (Hsub : forall y, subtree s1 x y <-> subtree s x y) by (intros y; apply subtree_ext; reflexivity).
+  eapply (InvR_attach_top s _ m x T R Epx Emx).
+  - reflexivity.
+  - intros y. cbn. rewrite upd_same. apply Hl.
+  - intros m' NE. cbn. rewrite upd_other by exact NE. reflexivity.
+  - intros y Hy. apply F1. apply Hsub. exact Hy.
+  - intros y Hy. rewrite F2; [reflexivity|]. intros C. apply Hy. apply Hsub. exact C.
+  - intros y. rewrite F3, Hsub. reflexivity.
+  - intros m' NE. rewrite F4 by exact NE. reflexivity.
+Qed.
+
+Lemma invr_append : forall s m x, InvA s -> InvM s -> InvR s -> ~ attached s x -> InvR (fst (step_append s m x)).
+Proof.
+  intros s m x HA H R Hfree. unfold step_append. destruct (memb x (gnames s m)); [exact R|].
+  destruct (verify_append (sz s) (rel s) (glsize s m) (glay s m) x); [exact R|]. cbn [do_append fst].
+  apply invr_attach_msg; try assumption. intros y. rewrite in_app_iff. cbn [In]. intuition.
+Qed.
+Lemma invr_insert : forall s m x b, InvA s -> InvM s -> InvR s -> ~ attached s x -> InvR (fst (step_insert s m x b)).
+Proof.
+  intros s m x b HA H R Hfree. unfold step_insert. destruct (memb x (gnames s m)); [exact R|].
+  destruct (verify_insert (sz s) (rel s) (glsize s m) (glay s m) x b); [exact R|]. cbn [do_insert fst].
+  apply invr_attach_msg; try assumption. intros y. apply insert_at_In.
+Qed.
+
+(* ---------------------------------------------------------------------------------------- *)
+(* multiplexer removal family and Message.RemoveSignal                                       *)
+(* ---------------------------------------------------------------------------------------- *)
+
+(* states that differ from s only in the group lists / membership bookkeeping *)
+Lemma TR_lists : forall s s', rcore s' = rcore s -> usigs s' = usigs s -> kind s' = kind s -> nsig s' = nsig s ->
+  emax s' = emax s -> emin s' = emin s -> Tree s /\ InvR s -> Tree s' /\ InvR s'.
+Proof.
+  intros s s' Erc Eu Ek En Ex Em [T R]. unfold rcore in Erc. inversion Erc as [[E1 E2 E3 E4]].
+  split; [apply (Tree_set_lists s s'); assumption|apply (InvR_core s s'); [unfold rcore; congruence|exact R]].
+Qed.
+
+Lemma tr_mux_remove : forall s u x, Tree s /\ InvR s -> Tree (fst (step_mux_remove s u x)) /\ InvR (fst (step_mux_remove s u x)).
+Proof.
+  intros s u x [T R]. unfold step_mux_remove. destruct (memb x (usigs s u)) eqn:Em; cbn [negb]; [|split; assumption].
+  assert (Ex : pmux s x = Some u) by (apply (t_in s T); exact Em).
+  destruct (ufixed s u x).
+  - cbn [fst]. set (s1 := set_ugroups s _).
+    assert (TR1 : Tree s1 /\ InvR s1) by (apply (TR_lists s s1); try reflexivity; split; assumption).
+    destruct TR1 as [T1 R1]. destruct (prim_mux_remove s1 u x T1 R1 Ex) as [T2 R2].
+    apply (TR_lists (mux_remove_signal s1 u x)); try reflexivity. split; assumption.
+  - destruct (ugids s u x) as [ids|]; [|split; assumption]. cbn [fst]. set (s1 := set_ugroups s _).
+    assert (TR1 : Tree s1 /\ InvR s1) by (apply (TR_lists s s1); try reflexivity; split; assumption).
+    destruct TR1 as [T1 R1]. destruct (prim_mux_remove s1 u x T1 R1 Ex) as [T2 R2].
+    apply (TR_lists (mux_remove_signal s1 u x)); try reflexivity. split; assumption.
+Qed.
+
+Lemma invr_remove : forall s m x, InvA s -> InvM s -> InvR s -> InvR (fst (step_remove s m x)).
+Proof.
+  intros s m x HA H R. pose proof (tree_of_inv s HA H) as T. unfold step_remove.
+  destruct (memb x (gsigs s m)) eqn:Em; cbn [negb]; [|exact R].
+  destruct (pmux s x) as [u|] eqn:Epx; [apply (tr_mux_remove s u x (conj T R))|]. cbn [fst].
+  assert (Emx : pmsg s x = Some m) by (apply (r_reg s R); exact Em).
+  destruct (msg_remove_effect s m x T) as (F1 & F2 & F3 & F4).
+  eapply (InvR_detach s _ m x T R Emx).
+  - intros y. cbn. autorewrite with reg. unfold upd. destruct (Nat.eqb_spec y x) as [->|]; [exact Epx|reflexivity].
+  - intros m' y. cbn. autorewrite with reg. unfold upd. destruct (Nat.eqb_spec m' m) as [->|NE].
+    + apply do_remove_In.
+    + split; [intros Hin; split; [exact Hin|]|tauto]. intros ->. destruct (r_top s R m' x Hin). congruence.
+  - intros y Hy. cbn. apply F1. exact Hy.
+  - intros y Hy. cbn. apply F2. exact Hy.
+  - intros y. cbn. apply F3.
+  - intros m' NE. cbn. apply F4. exact NE.
+Qed.
+
+Lemma tr_clear_group_loop : forall xs s u g, Tree s /\ InvR s -> NoDup xs -> (forall y, In y xs -> pmux s y = Some u) ->
+  Tree (fst (clear_group_loop s u g xs)) /\ InvR (fst (clear_group_loop s u g xs)).
+Proof.
+  induction xs as [|x r IH]; intros s u g TR Hnd Hp; cbn [clear_group_loop]; [exact TR|].
+  inversion Hnd as [|? ? Hnx Hnd']; subst.
+  destruct (ufixed s u x); [apply IH; [exact TR|exact Hnd'|intros y Hy; apply Hp; right; exact Hy]|].
+  set (s1 := set_ugroups s _).
+  assert (TR1 : Tree s1 /\ InvR s1) by (apply (TR_lists s s1); try reflexivity; exact TR).
+  destruct (ugids s1 u x) as [ids|]; [|exact TR1].
+  destruct (length ids =? 1)%nat.
+  - destruct TR1 as [T1 R1]. destruct (prim_mux_remove s1 u x T1 R1 (Hp x (or_introl eq_refl))) as [T2 R2].
+    apply IH; [|exact Hnd'|].
+    + apply (TR_lists (mux_remove_signal s1 u x)); try reflexivity. split; assumption.
+    + intros y Hy. cbn. rewrite pmux_mux_remove. rewrite upd_other by (intros ->; contradiction). apply Hp. right; exact Hy.
+  - apply IH; [|exact Hnd'|].
+    + apply (TR_lists s1); try reflexivity. exact TR1.
+    + intros y Hy. apply Hp. right; exact Hy.
+Qed.
+
+Lemma invr_mux_clear_group : forall s u g, InvA s -> InvM s -> InvR s -> InvR (fst (step_mux_clear_group s u g)).
+Proof.
+  intros s u g HA H R. pose proof (tree_of_inv s HA H) as T. unfold step_mux_clear_group. destruct (verify_gid s u g); [exact R|].
+  pose proof (tr_clear_group_loop (gget s u (Z.to_nat g)) s u g (conj T R)) as P.
+  destruct (clear_group_loop s u g (gget s u (Z.to_nat g))) as [s1 p]. cbn [fst] in *. apply P.
+  - eapply ok_NoDup. apply (a_ok s HA (LG u (Z.to_nat g))).
+  - intros y Hy. apply (m_pmux s H u (Z.to_nat g) y Hy).
+Qed.
+
+Lemma tr_fold_mux_remove : forall xs s u, Tree s /\ InvR s -> NoDup xs -> (forall y, In y xs -> pmux s y = Some u) ->
+  Tree (fold_left (fun acc x => mux_remove_signal acc u x) xs s) /\ InvR (fold_left (fun acc x => mux_remove_signal acc u x) xs s).
+Proof.
+  induction xs as [|x r IH]; intros s u [T R] Hnd Hp; cbn [fold_left]; [split; assumption|].
+  inversion Hnd as [|? ? Hnx Hnd']; subst.
+  destruct (prim_mux_remove s u x T R (Hp x (or_introl eq_refl))) as [T2 R2].
+  apply IH; [split; assumption|exact Hnd'|].
+  intros y Hy. rewrite pmux_mux_remove. rewrite upd_other by (intros ->; contradiction). apply Hp. right; exact Hy.
+Qed.
+
+Lemma invr_mux_clear_all : forall s u, InvA s -> InvM s -> InvR s -> InvR (fst (step_mux_clear_all s u)).
+Proof.
+  intros s u HA H R. pose proof (tree_of_inv s HA H) as T. unfold step_mux_clear_all. cbn [fst].
+  destruct (tr_fold_mux_remove (usigs s u) s u (conj T R) (m_usigs_nd s H u)) as [T1 R1].
+  { intros y Hy. apply (t_in s T). apply memb_In. exact Hy. }
+  apply (InvR_core (fold_left (fun acc x => mux_remove_signal acc u x) (usigs s u) s)); [reflexivity|exact R1].
+Qed.
+
+(* ---------------------------------------------------------------------------------------- *)
+(* InsertSignal                                                                              *)
+(* ---------------------------------------------------------------------------------------- *)
+
+Lemma fits_smaller : forall s u x b g, InvA s -> InvM s -> vmux s u = true ->
+  verify_insert (sz s) (rel s) (mux_gsize s u) (gget s u g) x b = None -> sz s x < sz s u.
+Proof.
+  intros s u x b g HA H Hu Hv. apply (verify_insert_range_free s u g x b HA) in Hv. destruct Hv as (V1 & V2 & _).
+  unfold vmux in Hu. apply andb_true_iff in Hu. destruct Hu as [Hvs Hmx]. unfold is_mux in Hmx.
+  unfold mux_gsize in V2. unfold sz at 2. destruct (kind s u) as [| |c gs] eqn:K; try discriminate.
+  destruct (m_len s H u c gs K (vsig_lt s u Hvs)) as [_ Hc]. destruct (selw_spec c Hc) as [W _]. lia.
+Qed.
+
+Lemma invr_mux_insert : forall s u x b gids, InvA s -> InvM s -> InvR s -> vmux s u = true -> vsig s x = true ->
+  ok_op_w s (OMuxInsert u x b gids) -> InvR (fst (step_mux_insert s u x b gids)).
+Proof.
+  intros s u x b gids HA H R Hu Hx Hop. cbn [ok_op_w] in Hop. pose proof (tree_of_inv s HA H) as T. unfold step_mux_insert.
+  destruct (if memb x (unames s u) then false else match pmsg s u with Some m => memb x (gnames s m) | None => false end); [exact R|].
+  assert (Hmux : is_mux s u = true) by (unfold vmux in Hu; apply andb_true_iff in Hu; tauto).
+  assert (Hult : (u < nsig s)%nat) by (apply vmux_lt; exact Hu).
+  assert (Hxlt : (x < nsig s)%nat) by (apply vsig_lt; exact Hx).
+  assert (Hlen : length (ugroups s u) = Z.to_nat (mux_count s u) /\ 1 <= mux_count s u).
+  { unfold is_mux in Hmux. unfold mux_count. destruct (kind s u) as [| |c g] eqn:K; try discriminate. apply (m_len s H u c g K Hult). }
+  assert (Hlink : (pmux s x = None /\ pmsg s x = None) \/ pmux s x = Some u).
+  { destruct Hop as [NA|[P _]]; [left; apply (link_top_of_inv s x HA H R); exact NA|right; apply (m_pmux2 s H); exact P]. }
+  (* the common tail: bookkeeping, then addSignal *)
+  assert (Htail : forall s2, rcore s2 = rcore s -> usigs s2 = usigs s -> kind s2 = kind s -> nsig s2 = nsig s ->
+            emax s2 = emax s -> emin s2 = emin s -> sz s x < sz s u -> InvR (mux_add_signal s2 u x)).
+  { intros s2 Erc Eu Ek En Ex Em Hsz. destruct (TR_lists s s2 Erc Eu Ek En Ex Em (conj T R)) as [T2 R2].
+    unfold rcore in Erc. inversion Erc as [[E1 E2 E3 E4]].
+    apply (prim_mux_add s2 u x T2 R2).
+    - rewrite E3, E2. exact Hlink.
+    - unfold is_mux. rewrite Ek. exact Hmux.
+    - rewrite !(sz_reg s s2 Ek Ex Em). exact Hsz.
+    - rewrite En. exact Hult.
+    - rewrite En. exact Hxlt. }
+  destruct gids as [|g0 gr].
+  - destruct (memb x (usigs s u)); [exact R|].
+    destruct (first_err (fun l => verify_insert (sz s) (rel s) (mux_gsize s u) l x b) (ugroups s u)) eqn:Ev; [exact R|].
+    destruct (insert_all (rel s) (ugroups s u) x b) as [pos gs]. cbn [fst].
+    apply Htail; try reflexivity.
+    destruct (ugroups s u) as [|l0 r] eqn:Eg; [destruct Hlen as [El Hc]; cbn in El; lia|].
+    apply (fits_smaller s u x b 0%nat HA H Hu). unfold gget. rewrite Eg. cbn [nth].
+    apply (first_err_none _ _ Ev). left; reflexivity.
+  - set (ids := dedup (g0 :: gr) []).
+    destruct (verify_ids s u x b (memb x (usigs s u)) (ufixed s u x) (match ugids s u x with Some l => l | None => [] end) ids) eqn:Ev; [exact R|].
+    destruct (insert_ids (rel s) (ugroups s u) ids x b) as [pos gs]. cbn [fst].
+    apply Htail; try reflexivity.
+    unfold verify_ids in Ev. assert (Hin : In g0 ids) by (unfold ids; cbn [dedup membZ existsb]; left; reflexivity).
+    pose proof (first_err_none _ _ Ev g0 Hin) as Hv. cbn beta in Hv.
+    destruct (verify_gid s u g0); [discriminate|]. destruct (ufixed s u x || membZ g0 _); [discriminate|].
+    destruct (memb x (usigs s u) && negb (b =? rel s x)); [discriminate|].
+    apply (fits_smaller s u x b (Z.to_nat g0) HA H Hu Hv).
+Qed.
+
+(* ---------------------------------------------------------------------------------------- *)
+(* every operation                                                                           *)
+(* ---------------------------------------------------------------------------------------- *)
+
+Theorem invr_step : forall s o, InvA s -> InvM s -> InvR s -> ok_op_w s o -> InvR (fst (step s o)).
+Proof.
+  intros s o HA H R Hop. destruct o; cbn [step].
+  - rsame s R.
+  - destruct (size <? 0); [exact R|]. destruct (size =? 0); [exact R|]. cbn [fst]. rsame s R.
+  - rsame s R.
+  - destruct (venum s e); [cbn [fst]; rsame s R|exact R].
+  - destruct (count <? 0); [exact R|]. destruct (count =? 0); [exact R|]. destruct (gsize <? 0); [exact R|]. destruct (gsize =? 0); [exact R|].
+    cbn [fst]. rsame s R.
+  - destruct (vmsg s m && vsig s x); [apply invr_append; assumption|exact R].
+  - destruct (vmsg s m && vsig s x); [apply invr_insert; assumption|exact R].
+  - destruct (vmsg s m); [apply invr_remove; assumption|exact R].
+  - destruct (vmsg s m); [apply InvR_remove_all; exact R|exact R].
+  - destruct (vmsg s m); [|exact R]. unfold step_shift. destruct (negb (memb x (gsigs s m))); [exact R|].
+    destruct (do_shift_left (sz s) (rel s) (glay s m) x a). cbn [fst]. rsame s R.
+  - destruct (vmsg s m); [|exact R]. unfold step_shift. destruct (negb (memb x (gsigs s m))); [exact R|].
+    destruct (do_shift_right (sz s) (rel s) (glsize s m) (glay s m) x a). cbn [fst]. rsame s R.
+  - destruct (vmsg s m); [unfold step_compact; cbn [fst]; rsame s R|exact R].
+  - destruct (vmsg s m); [|exact R]. unfold step_resize. destruct (bytes <? 0); [exact R|]. destruct (gbytes s m =? bytes); [exact R|].
+    destruct (2 ^ 60 - 1 <? bytes); [exact R|]. destruct (verify_resize (sz s) (rel s) (glsize s m) (glay s m) (bytes * 8)); [exact R|]. cbn [fst]. rsame s R.
+  - destruct (vmsg s m); exact R.
+  - destruct (vsig s x); [apply invr_set_type; exact R|exact R].
+  - destruct (vsig s x && venum s e); [apply invr_set_enum; exact R|exact R].
+  - destruct (venum s e); [apply invr_add_value; exact R|exact R].
+  - destruct (venum s e); [|exact R]. unfold step_remove_value. destruct (negb (memb v (evals s e))); [exact R|]. cbn [fst].
+    destruct (vidx s v =? emax s e); rsame s R.
+  - destruct (venum s e); [unfold step_remove_all_values; cbn [fst]; rsame s R|exact R].
+  - destruct (venum s e); [cbn [fst]; rsame s R|exact R].
+  - destruct (vval s v); [apply invr_update_index; exact R|exact R].
+  - destruct (vmux s u) eqn:Eu; cbn [andb]; [|exact R]. destruct (vsig s x) eqn:Ex; [|exact R].
+    apply invr_mux_insert; assumption.
+  - destruct (vmux s u); [|exact R]. apply (tr_mux_remove s u x). split; [apply tree_of_inv; assumption|exact R].
+  - destruct (vmux s u); [apply invr_mux_clear_group; assumption|exact R].
+  - destruct (vmux s u); [apply invr_mux_clear_all; assumption|exact R].
+  - destruct (vmux s u); [|exact R]. unfold step_mux_shift. destruct (ugids s u x) as [ids|]; [|exact R].
+    destruct ids as [|g [|g2 r]]; try exact R. destruct (do_shift_left (sz s) (rel s) (gget s u (Z.to_nat g)) x a). cbn [fst]. rsame s R.
+  - destruct (vmux s u); [|exact R]. unfold step_mux_shift. destruct (ugids s u x) as [ids|]; [|exact R].
+    destruct ids as [|g [|g2 r]]; try exact R. destruct (do_shift_right (sz s) (rel s) (mux_gsize s u) (gget s u (Z.to_nat g)) x a). cbn [fst]. rsame s R.
+Qed.
+
+Lemma invr_init : InvR init.
+Proof.
+  constructor.
+  - intros m x Hin. cbn in Hin. destruct Hin.
+  - intros x u E. cbn in E. discriminate.
+  - intros x m _ E. cbn in E. discriminate.
+  - intros x m. cbn. split; discriminate.
+Qed.
